@@ -154,18 +154,115 @@ ARG_POOL = [
 ]
 
 
+def _pool_classes():
+    """ARG_POOL split by the kind of value an argument text denotes (for typed argument selection)."""
+    cls = {'string': [], 'numeric': [], 'boolean': [], 'datetime': [], 'duration': [], 'function': [], 'map': [],
+           'array': [], 'node': [], 'qname': [], 'binary': [], 'empty': ['()'], 'seq': []}
+    for a in ARG_POOL:
+        if a.startswith(("'", '"')) or a.startswith(('xs:anyURI', 'xs:NCName', 'xs:language', 'xs:untypedAtomic')):
+            cls['string'].append(a)
+        elif re.match(r'^-?[\d.]', a) or a.startswith(('xs:double', 'xs:float', 'xs:integer', 'xs:unsigned', 'xs:long')):
+            cls['numeric'].append(a)
+        elif a in ('true()', 'false()'):
+            cls['boolean'].append(a)
+        elif a.startswith(('xs:date', 'xs:time', 'xs:g')):
+            cls['datetime'].append(a)
+        elif a.startswith(('xs:duration', 'xs:dayTime', 'xs:yearMonth')):
+            cls['duration'].append(a)
+        elif '#' in a or a.startswith('function') or a.endswith('?)') or '(?' in a:
+            cls['function'].append(a)
+        elif a.startswith('map'):
+            cls['map'].append(a)
+        elif a.startswith('['):
+            cls['array'].append(a)
+        elif a.startswith(('.', '/')) or a.startswith('(/'):
+            cls['node'].append(a)
+        elif a.startswith('xs:QName'):
+            cls['qname'].append(a)
+        elif a.startswith(('xs:hex', 'xs:base64')):
+            cls['binary'].append(a)
+        elif a.startswith('('):
+            cls['seq'].append(a)
+    return cls
+
+
+POOL_CLASSES = _pool_classes()
+REGEX_POOL = ["'[a-z'", "'x*'", "'(a)|(b)'", "'\\p{L}+'", "'\\P{IsBasicLatin}'", "'[a-z-[aeiou]]'", "'(a|b)*c{2,3}?'", "'^.*$'",
+              "'\\1'", "'(?i)a'", "'a{99999}'", "'a{2,1}'", "'\\p{IsNoSuchBlock}'", "'a{'", "'}'", "'{}'", "'a{,3}'", "'(a'",
+              "'a)'", "'[]'", "'[^]'", "'\\'", "'a|'", "'(())'", "'\\p{Lu}{2}'", "'x{0}'", "'.'", "''", "'\\s+'", "'\\i\\c*'",
+              "'[\\w-[\\d]]'", "'a{1}{2}'", "'(a)\\2'", "'\\n'", "'$'", "'^'"]
+FLAG_POOL = ["''", "'i'", "'s'", "'m'", "'x'", "'q'", "'imsxq'", "'j'", "'ii'", "' '", "'I'"]
+REPLACEMENT_POOL = ["''", "'$1'", "'$0'", "'\\$'", "'$'", "'\\'", "'$9'", "'x'", "'\\\\'", "'$a'", "'$10'"]
+PICTURE_POOL = [a for a in ARG_POOL if a.startswith("'") and ('[' in a or '#' in a or '0' in a or a in ("'Ww'", "'w'", "'i'", "'A'", "'a'",
+                                                                                                           "'I'", "'1;o'", "'%'"))]
+NUMBER_EDGE_POOL = ['0', '-0.0e0', '0.0', '1', '-1', '0.5', '1.5', '-2.5', '1e-320', '1e308', '123456789.123456789', '1234567',
+                    'xs:double("NaN")', 'xs:double("INF")', 'xs:float("-INF")', '12345678901234567890123456789', '0.000001',
+                    '1e21', '-1e-7', '100', '999999999999999999999', 'xs:float("1.5")', 'xs:decimal("1.005")']
+
+
+def typed_pool(name, index, declared, version):
+    """The pool an argument is drawn from most of the time: the values its declared type admits (or the special
+    strings the function interprets: pictures, regular expressions, flags, replacement strings)."""
+    base = name.split(':')[-1]
+    if base in ('matches', 'replace', 'tokenize', 'analyze-string'):
+        if index == 1:
+            return REGEX_POOL
+        if (base == 'replace' and index == 2):
+            return REPLACEMENT_POOL
+        if (base == 'replace' and index == 3) or (base != 'replace' and index == 2):
+            return FLAG_POOL
+    if base.startswith('format-') and index == 1:
+        return PICTURE_POOL
+    if base in ('format-number', 'format-integer', 'round', 'round-half-to-even') and index == 0:
+        return NUMBER_EDGE_POOL
+    t = declared.rstrip('?*+')
+    if t in ('xs:string', 'xs:anyURI'):
+        return POOL_CLASSES['string']
+    if t in ('xs:numeric', 'xs:double', 'xs:integer', 'xs:decimal', 'xs:float'):
+        return POOL_CLASSES['numeric']
+    if t == 'xs:boolean':
+        return POOL_CLASSES['boolean']
+    if t in ('xs:date', 'xs:dateTime', 'xs:time'):
+        return [a for a in POOL_CLASSES['datetime'] if a.startswith(t + '(')] or POOL_CLASSES['datetime']
+    if t.endswith('Duration') or t == 'xs:duration':
+        return POOL_CLASSES['duration']
+    if t.startswith('function'):
+        return POOL_CLASSES['function']
+    if t.startswith('map'):
+        return POOL_CLASSES['map']
+    if t.startswith('array'):
+        return POOL_CLASSES['array']
+    if t in ('node()', 'element()', 'document-node()'):
+        return POOL_CLASSES['node']
+    if t == 'xs:QName':
+        return POOL_CLASSES['qname']
+    return None
+
+
 def funcall_source(rng, version='3.1'):
-    """A call of any library function with arguments of any type (function conversion rules, casts, pictures, ...)."""
+    """A call of any library function: most arguments are drawn from the values the declared type admits (edge
+    values, pictures, regular expressions), the others from values of any type (function conversion rules)."""
     order = ['1.0', '2.0', '3.0', '3.1']
     avail = [f for f in FUNCTIONS if order.index(f[3]) <= order.index(version)]
-    name, lo, hi, _v = rng.choice(avail)
+    name, lo, hi, _v, declared = rng.choice(avail)
     if hi is None:
         hi = lo + 3
     n = rng.randint(lo, hi) if rng.random() < 0.9 else rng.choice([max(0, lo - 1), hi + 1])
     pool = ARG_POOL if version >= '3.0' else [a for a in ARG_POOL if not re.search(r'[\[{#?]|function', a.split("'")[0])]
     if version == '1.0':
         pool = [a for a in pool if not re.search(r'xs:|\(.*,|to ', a) and a not in ('()',)]
-    args = [rng.choice(pool) for _ in range(n)]
+    allowed = set(pool)
+    args = []
+    for k in range(n):
+        typed = typed_pool(name, k, declared[min(k, len(declared) - 1)], version) if declared else None
+        if typed and rng.random() < 0.75:
+            typed = [a for a in typed if a in allowed or (a.startswith("'") and version != '1.0') or a[0].isdigit()
+                     or a[0] in '-'] or pool
+            if version == '1.0':
+                typed = [a for a in typed if 'xs:' not in a] or pool
+            args.append(rng.choice(typed))
+        else:
+            args.append(rng.choice(pool))
     if version >= '3.0' and not name.startswith('xs:') and rng.random() < 0.5 and name.count(':') == 0:
         name = 'fn:' + name
     x = rng.random()
@@ -179,7 +276,16 @@ def funcall_source(rng, version='3.1'):
         args2 = list(args)
         args2[i] = '?'
         return '%s(%s)(%s)' % (name, ', '.join(args2), held)
-    if version >= '3.0' and x < 0.3:
+    if version >= '3.0' and x < 0.28 and n > 1:
+        # a partial application applied partially again, also with the wrong number of arguments
+        first = '%s(%s)' % (name, ', '.join('?' for _ in range(n)))
+        m = rng.choice([n, n, n - 1, n + 1])
+        second = [rng.choice(['?', a]) for a in (args + args)[:m]]
+        if '?' not in second:
+            second[0] = '?'
+        return 'let $f := %s return $f(%s)(%s)' % (first, ', '.join(second), ', '.join(
+            a for a, b in zip(args, second) if b == '?'))
+    if version >= '3.0' and x < 0.33:
         return 'for-each(%s, %s#1)' % (rng.choice(pool), name) if lo <= 1 <= hi else '%s#%d' % (name, n)
     return '%s(%s)' % (name, ', '.join(args))
 
